@@ -974,7 +974,14 @@ fn union_single_and_range(
             }
             let mut indices = indicies.iter().collect::<Vec<_>>();
             indices.sort();
-            let mut last = indices[0];
+            // an empty string united with an empty (reversed) range permits no character at all
+            let Some(first) = indices.first() else {
+                return Err(GrammarError::new(
+                    &format!("Permitted alphabet of {v:?} and {min:?}..{max:?} is empty"),
+                    GrammarErrorType::UnpackingError,
+                ));
+            };
+            let mut last = *first;
             let mut contiguous = true;
             for v in indices[1..].iter() {
                 if **v != last + 1 {
